@@ -295,7 +295,9 @@ def r4(ctx, cfg):
             # closure parameters by position (closure-local names are free to change): _2 deps, then env[, info], msg
             # the Deps / DepsMut handed on is the closure's own (re-typed by decustomize_deps[_mut] or in place: its storage
             # and api are those of closure parameter _2)
-            if dec[0] == "call" and dec[1] in ("contracts::decustomize_deps_mut", "contracts::decustomize_deps"):
+            if dec[0] == "call" and dec[1] in ("contracts::decustomize_deps_mut", "contracts::decustomize_deps",
+                                               "cosmwasm_std::DepsMut::into_empty", "cosmwasm_std::Deps::into_empty"):
+                # (cosmwasm-std's own re-typing: `deps.into_empty()` keeps storage, api and the wrapped querier)
                 ok = ok and contains(dec[2][0], lambda x: x[0] == "cparam" and x[1] == 2)
             else:
                 dd0 = dict(dec[2]) if dec[0] == "agg" and dec[1].startswith(("cosmwasm_std::Deps", "cosmwasm_std::DepsMut")) else {}
